@@ -7,7 +7,7 @@ from typing import Dict, List, Optional, Set, Tuple
 
 from ..absval import UNKNOWN, Evaluator, walk
 from ..astutil import call_name, calls_in, kwarg, unparse
-from ..cfg import CFG, CNode, LocalDefs, path_text
+from ..cfg import expand_test, CFG, CNode, LocalDefs, path_text
 from ..index import AnalysisError, ClassInfo, FuncInfo
 from ..report import Ctx
 from .common import node_calls, nodes_calling
@@ -241,7 +241,7 @@ def r8_5(ctx: Ctx) -> None:
             cur_if = n
     if cur_if is None:
         raise AnalysisError("R8.5: update is not directly guarded by an if")
-    G = cur_if.test
+    G = expand_test(ld, cur_if.test)
     pref_names = sorted({unparse(x) for x in ast.walk(G) if isinstance(x, (ast.Name, ast.Attribute)) and "prefix" in unparse(x)})
     met_names = sorted({unparse(x) for x in ast.walk(G) if isinstance(x, (ast.Name, ast.Attribute)) and "metric" in unparse(x)
                         and not any(isinstance(y, ast.Attribute) and y is not x and unparse(x) in unparse(y) for y in ast.walk(G) if isinstance(y, ast.Attribute) and y is not x)})
